@@ -77,10 +77,11 @@ class Sodium(material.Fluid):
         g = 511.58
         h = 0.5
         Tcrit = 2503.7  # critical temperature
+        # the valid range ends at the critical point, where rounding in Tc + 273.15 must not
+        # make the base of the fractional power negative (its value would be complex)
+        reducedT = max(0.0, 1 - (Tc + 273.15) / Tcrit)
         return (
-            critDens
-            + f * (1 - (Tc + 273.15) / Tcrit)
-            + g * (1 - (Tc + 273.15) / Tcrit) ** h
+            critDens + f * reducedT + g * reducedT**h
         ) / 1000.0  # convert from kg/m^3 to g/cc.
 
     def specificVolumeLiquid(self, Tk=None, Tc=None):
